@@ -218,6 +218,9 @@ func (check typecheck) shift(n *node) error {
 func (check typecheck) comparison(n *node) error {
 	t0, t1 := n.child[0].typ, n.child[1].typ
 
+	if t0.isNil() && t1.isNil() {
+		return n.cfgErrorf("invalid operation: operator %v not defined on nil", n.action)
+	}
 	if !t0.assignableTo(t1) && !t1.assignableTo(t0) {
 		return n.cfgErrorf("invalid operation: mismatched types %s and %s", t0.id(), t1.id())
 	}
